@@ -8,6 +8,7 @@ import AfkakProps.Open.C05
 import AfkakProofs.Wire.ReplyVersions
 import AfkakProofs.Wire.EncDec
 import AfkakProofs.Wire.GenEq
+import AfkakProofs.Wire.GenEqCodec
 /-!
 # C05 — responses and message sets decode to exactly what was encoded
 
@@ -427,6 +428,19 @@ theorem C05_generated_read_short_text_eq_model (data : Bytes) (cur : Int) :
 theorem C05_generated_relative_unpack_eq_model (fmt : List Char) (data : Bytes) (cur : Int) :
     genRelativeUnpack fmt data cur = relativeUnpack fmt data cur := gen_relativeUnpack fmt data cur
 
+/-- `KafkaCodec.get_response_correlation_id` -/
+theorem C05_generated_get_response_correlation_id_eq_model (data : Bytes) :
+    genGetResponseCorrelationId data = getResponseCorrelationId data := gen_getResponseCorrelationId data
+
+/-- `KafkaCodec.decode_leave_group_response` and `decode_heartbeat_response` -/
+theorem C05_generated_decode_error_only_eq_model (data : Bytes) :
+    genDecodeLeaveGroupResponse data = decodeLeaveGroupResponse data
+    ∧ genDecodeHeartbeatResponse data = decodeHeartbeatResponse data := gen_decodeErrorOnly data
+
+/-- `KafkaCodec.decode_sync_group_response` -/
+theorem C05_generated_decode_sync_group_response_eq_model (data : Bytes) :
+    genDecodeSyncGroupResponse data = decodeSyncGroupResponse data := gen_decodeSyncGroupResponse data
+
 end Afkak.Props.C05
 
 /- OBLIGATIONS
@@ -467,6 +481,9 @@ C05_generated_read_int_string_eq_model
 C05_generated_read_short_ascii_eq_model
 C05_generated_read_short_text_eq_model
 C05_generated_relative_unpack_eq_model
+C05_generated_get_response_correlation_id_eq_model
+C05_generated_decode_error_only_eq_model
+C05_generated_decode_sync_group_response_eq_model
 -/
 /- OPEN_STATEMENTS
 -/
